@@ -116,7 +116,9 @@ func rpCases() []copyCase {
 	}
 	ct := func(o *rpObj, tag string) *rlwe.Ciphertext {
 		c := rlwe.NewCiphertextRandom(uni.KeyedPRNG("rp", tag), o.params, 1, o.params.MaxLevel())
-		c.IsNTT = o.params.NTTFlag()
+		// Split / Merge only accept NTT-domain operands (coefficient-domain ones are refused with an error since
+		// /repo b71926d); the "coef" configuration keeps parameters with NTTFlag=false.
+		c.IsNTT = true
 		return c
 	}
 	return []copyCase{{name: "rlwe.RingPackingEvaluator.ShallowCopy", envKind: "rlwe", needP: true, kind: shallow, concurrent: true,
